@@ -5,11 +5,17 @@
    structure cannot change what another structure reads as long as their derived keys differ.
    The assumption that freshly generated base keys are distinct from all live ones
    (time-seeded PRNG over 52^16 strings) is not provable; the harness checks it on every run.
-   The lifting to whole programs of all five structures is decided by correspondence: 2-8 live
-   structures of mixed kinds share one miniredis, their histories are interleaved, and each
-   structure's answers are diffed against its model run alone on an empty store (partial). *)
+   Lifted to whole programs: operations that are LOCAL to disjoint key sets cannot influence
+   each other - in any interleaving each structure's operations give exactly the answers they
+   give alone (C19_non_interference, generic); Update and Count of the Redis Count-Min sketch
+   are local to the sketch's row keys, and sketches with different 16-letter base keys have
+   disjoint row keys (C19_cms_structures_do_not_interfere). For the other four structures the
+   locality of each call is decided by correspondence: 2-8 live structures of mixed kinds share
+   one miniredis, their histories are interleaved, each structure's answers are diffed against
+   its model run alone on an empty store, and a monitor checks that a structure's answers change
+   only through operations on its own handles (partial for those four). *)
 From GX.Model Require Import Base Redis RedisCMS.
-From GX.Proofs Require Import ListLemmas RedisProofs.
+From GX.Proofs Require Import ListLemmas RedisProofs FrameProofs.
 
 Theorem C19_decimal_injective : forall a b, dec a = dec b -> a = b.
 Proof. exact dec_injective. Qed.
@@ -41,7 +47,27 @@ Theorem C19_cms_init_frame : forall s key rows cols k',
   (forall r, row_key key r <> k') -> sget (cms_init_rows s key rows cols) k' = sget s k'.
 Proof. exact init_rows_frame. Qed.
 
+(* whole programs: operations local to disjoint key sets do not interfere, in any interleaving *)
+Theorem C19_non_interference : forall (O : Type) (K1 K2 : keyset),
+  (forall k, K1 k -> K2 k -> False) ->
+  forall prog, Forall (well_tagged O K1 K2) prog ->
+  forall s s', agree K1 s s' -> run_mixed O s prog = run_alone O s' prog.
+Proof. exact non_interference. Qed.
+
+Theorem C19_cms_update_local : forall cpos h x count, local (Kcms (rc_key h)) (op_update cpos h x count).
+Proof. exact update_local. Qed.
+Theorem C19_cms_count_local : forall cpos h x, local (Kcms (rc_key h)) (op_count cpos h x).
+Proof. exact count_local. Qed.
+
+Theorem C19_cms_structures_do_not_interfere : forall key1 key2 prog s,
+  length key1 = length key2 -> key1 <> key2 ->
+  Forall (well_tagged (outcome N) (Kcms key1) (Kcms key2)) prog ->
+  run_mixed (outcome N) s prog = run_alone (outcome N) s prog.
+Proof. exact cms_structures_do_not_interfere. Qed.
+
 Print Assumptions C19_decimal_injective.
 Print Assumptions C19_row_key_injective.
 Print Assumptions C19_lset_frame.
 Print Assumptions C19_cms_init_frame.
+Print Assumptions C19_non_interference.
+Print Assumptions C19_cms_structures_do_not_interfere.
